@@ -268,6 +268,47 @@ def task_rescale(ctx):
     ctx.assume_note("shape-bounded: 1 and 2 atoms; all real velocities, coupling vectors, inverse masses > 0 and energy differences")
 
 
+def replay_hop_gap(model):
+    """real _after_electronic_update, batch of two trajectories, only trajectory 1 draws a hop: the energy gap handed to the
+    velocity rescale must be trajectory 1's own."""
+    import torch
+    import seqm.NonadiabaticDynamics as N
+
+    torch.set_default_dtype(torch.float64)
+    sh = object.__new__(N.SurfaceHoppingDynamics)
+    torch.nn.Module.__init__(sh)
+    sh.__dict__.update(_nstates=3, _eye_cache={}, _arange_cache={}, timestep=0.1, step_offset=0, hop_log=[], _decohere_on_hop=False, _trivial_crossing_mask=None, _hop_integral=None,
+                       _current_potential=None, _tdc_method="hamiltonian_fd", post_hop_holdoff=torch.zeros(2, dtype=torch.long), prev_state=torch.full((2,), -1, dtype=torch.long))
+    sh._active_states = torch.tensor([1, 2])
+    sh._amp_phase = torch.rand(2, 3, 3)
+    seen = {}
+    sh._attempt_hop = lambda: torch.tensor([-1, 0])
+    sh._compute_NACR_for_hop = lambda molecule, pairs: {"pairs": pairs}
+
+    def rescale(nac_vec, i_state, j_state, molecule, dE, mol_index):
+        seen["dE"], seen["mol"] = float(dE), int(mol_index)
+        return False
+
+    sh._rescale_velocity_along_nac = rescale
+    sh._recompute_active_force = lambda molecule: None
+    exc = torch.tensor([[0.0, 1.0, 5.0], [0.0, 2.0, 2.5]])
+    mol = type("M", (), {})()
+    mol.velocities = torch.zeros(2, 1, 3)
+    mol.mass_inverse = torch.ones(2, 1, 1)
+    mol.Etot = torch.zeros(2)
+    mol.force = torch.zeros(2, 1, 3)
+    mol.coordinates = torch.zeros(2, 1, 3)
+    mol.species = torch.ones(2, 1, dtype=torch.long)
+    mol.nmol = 2
+    try:
+        sh._after_electronic_update(mol, excitation_energies=exc, step=0)
+    except Exception as exc_:  # noqa
+        return {"reproduced": False, "error": repr(exc_)[:200]}
+    want = float(exc[1, 0] - exc[1, 2])
+    return {"reproduced": bool(seen and abs(seen.get("dE", want) - want) > 1e-12), "gap_handed_over_eV": seen.get("dE"), "trajectory": seen.get("mol"), "its_own_gap_eV": want,
+            "other_trajectory_gap_eV": float(exc[0, 0] - exc[0, 2])}
+
+
 def task_relabel(ctx):
     """O4: trivial-crossing relabelling is a permutation of amplitudes and active index (for every permutation handed over
     by _detect_crossings); frustrated hops keep state and velocities; potential bookkeeping E' = E - w_old + w_new."""
@@ -307,55 +348,70 @@ def task_relabel(ctx):
                 ctx.prove_eq(tag + ".potential=E-w_old+w_new", mol.Etot.a[0], E0.a[0] - exc.a[0, active] + exc.a[0, perm[active]], pc=p.pc)
                 ctx.prove(tag + ".force-recomputed-iff-active-relabelled", E.const((sh._recomputed == 1) == (perm[active] != active)), pc=p.pc)
 
-    # frustrated / accepted stochastic hop, two trajectories: isolation
-    for accept in (True, False):
-        def thunk():
-            sh = _new_sh(n, nmol=2)
-            sh._active_states = st.tensor([1, 2])
-            sh._amp_phase = st.symbolic((2, n, 3), "amp")
-            amp0 = sh._amp_phase.clone()
-            mol = ghost_molecule(0)
-            mol.velocities = st.symbolic((2, 1, 3), "v")
-            mol.mass_inverse = st.tensor([[[real("mi0")]], [[real("mi1")]]])
-            v0 = mol.velocities.clone()
-            mol.Etot = st.symbolic((2,), "Etot")
-            E0 = mol.Etot.clone()
-            mol.force = st.symbolic((2, 1, 3), "F")
-            exc = st.symbolic((2, n), "w")
-            sh._recomputed = 0
-            fn(sh, mol, exc)
-            return sh, amp0, mol, v0, E0, exc
+    # frustrated / accepted stochastic hop, two trajectories: isolation, and the callee gets the hopping trajectory's own gap
+    for hops in ((0, -1), (-1, 0), (0, 1)):
+        for accept in (True, False):
+            calls = []
 
-        def rescale_stub(self, nac_vec, i_state, j_state, molecule, dE, mol_index):
-            if accept:
-                molecule.velocities[mol_index] = molecule.velocities[mol_index] + st.symbolic((1, 3), "dv")
-            return accept
+            def thunk():
+                del calls[:]
+                sh = _new_sh(n, nmol=2)
+                sh._active_states = st.tensor([1, 2])
+                sh._amp_phase = st.symbolic((2, n, 3), "amp")
+                amp0 = sh._amp_phase.clone()
+                mol = ghost_molecule(0)
+                mol.velocities = st.symbolic((2, 1, 3), "v")
+                mol.mass_inverse = st.tensor([[[real("mi0")]], [[real("mi1")]]])
+                v0 = mol.velocities.clone()
+                mol.Etot = st.symbolic((2,), "Etot")
+                E0 = mol.Etot.clone()
+                mol.force = st.symbolic((2, 1, 3), "F")
+                exc = st.symbolic((2, n), "w")
+                sh._recomputed = 0
+                fn(sh, mol, exc)
+                return sh, amp0, mol, v0, E0, exc, list(calls)
 
-        stubs = {SH + "._attempt_hop": lambda self: st.tensor([0, -1]),
-                 SH + "._compute_NACR_for_hop": lambda self, molecule, pairs: {"pairs": pairs},
-                 SH + "._rescale_velocity_along_nac": rescale_stub,
-                 SH + "._recompute_active_force": lambda self, molecule: setattr(self, "_recomputed", self._recomputed + 1)}
-        ex = ctx.explore(thunk, stubs=stubs, name="hop accept=%s" % accept)
-        for p in ex.paths:
-            tag = "hop.%s" % ("accepted" if accept else "frustrated")
-            if p.raised is not None:
-                ctx.fail(tag + ".raises", repr(p.raised) + p.notes.get("traceback", "")[-500:])
-                continue
-            sh, amp0, mol, v0, E0, exc = p.value
-            new_active = [int(x) for x in sh._active_states.a]
-            ctx.prove(tag + ".active-states", E.const(new_active == ([0, 2] if accept else [1, 2])))
-            # trajectory 1 (no hop attempted) is untouched
-            same1 = E.and_(*[E.eq(a.n, b.n) for a, b in zip(mol.velocities.a[1].reshape(-1), v0.a[1].reshape(-1))],
-                           *[E.eq(a.n, b.n) for a, b in zip(sh._amp_phase.a[1].reshape(-1), amp0.a[1].reshape(-1))])
-            ctx.prove(tag + ".other-trajectory-untouched", same1, pc=p.pc, shape="batch=2")
-            ctx.prove_eq(tag + ".other-trajectory-potential", mol.Etot.a[1], E0.a[1], pc=p.pc)
-            if not accept:
-                same0 = E.and_(*[E.eq(a.n, b.n) for a, b in zip(mol.velocities.a[0].reshape(-1), v0.a[0].reshape(-1))])
-                ctx.prove(tag + ".velocities-untouched", same0, pc=p.pc)
-                ctx.prove_eq(tag + ".potential-unchanged", mol.Etot.a[0], E0.a[0], pc=p.pc)
-            else:
-                ctx.prove_eq(tag + ".potential=E-w_old+w_new", mol.Etot.a[0], E0.a[0] - exc.a[0, 1] + exc.a[0, 0], pc=p.pc)
-            ctx.prove(tag + ".force-recomputed-iff-accepted", E.const((sh._recomputed == 1) == accept))
+            def rescale_stub(self, nac_vec, i_state, j_state, molecule, dE, mol_index):
+                calls.append(dict(i=i_state, j=j_state, dE=dE, mol=mol_index))
+                if accept:
+                    molecule.velocities[mol_index] = molecule.velocities[mol_index] + st.symbolic((1, 3), "dv%d" % int(mol_index))
+                return accept
+
+            stubs = {SH + "._attempt_hop": lambda self: st.tensor(list(hops)),
+                     SH + "._compute_NACR_for_hop": lambda self, molecule, pairs: {"pairs": pairs},
+                     SH + "._rescale_velocity_along_nac": rescale_stub,
+                     SH + "._recompute_active_force": lambda self, molecule: setattr(self, "_recomputed", self._recomputed + 1)}
+            ex = ctx.explore(thunk, stubs=stubs, name="hop %r accept=%s" % (hops, accept))
+            old = [1, 2]
+            for p in ex.paths:
+                tag = "hop[%s].%s" % (",".join(str(h) for h in hops), "accepted" if accept else "frustrated")
+                if p.raised is not None:
+                    ctx.fail(tag + ".raises", repr(p.raised) + p.notes.get("traceback", "")[-500:])
+                    continue
+                sh, amp0, mol, v0, E0, exc, cl = p.value
+                new_active = [int(x) for x in sh._active_states.a]
+                want_active = [(hops[m] if (accept and hops[m] >= 0) else old[m]) for m in range(2)]
+                ctx.prove(tag + ".active-states", E.const(new_active == want_active))
+                hopping = [m for m in range(2) if hops[m] >= 0]
+                ctx.prove(tag + ".one-rescale-call-per-hopping-trajectory", E.const(sorted(int(c["mol"]) for c in cl) == hopping))
+                for c in cl:
+                    m = int(c["mol"])
+                    ctx.prove(tag + ".traj%d.states-handed-to-the-rescale-are-its-own" % m, E.const(int(c["i"]) == old[m] and int(c["j"]) == hops[m]))
+                    ctx.prove_eq(tag + ".traj%d.energy-gap-handed-to-the-rescale-is-its-own" % m, S(c["dE"]), exc.a[m, hops[m]] - exc.a[m, old[m]], pc=p.pc,
+                                 replay=replay_hop_gap, classify=lambda m_, r: "gap-of-another-trajectory")
+                for m in range(2):
+                    if hops[m] < 0:
+                        same = E.and_(*[E.eq(a.n, b.n) for a, b in zip(mol.velocities.a[m].reshape(-1), v0.a[m].reshape(-1))],
+                                      *[E.eq(a.n, b.n) for a, b in zip(sh._amp_phase.a[m].reshape(-1), amp0.a[m].reshape(-1))])
+                        ctx.prove(tag + ".traj%d.not-hopping-trajectory-untouched" % m, same, pc=p.pc, shape="batch=2")
+                        ctx.prove_eq(tag + ".traj%d.not-hopping-trajectory-potential" % m, mol.Etot.a[m], E0.a[m], pc=p.pc)
+                    elif not accept:
+                        same0 = E.and_(*[E.eq(a.n, b.n) for a, b in zip(mol.velocities.a[m].reshape(-1), v0.a[m].reshape(-1))])
+                        ctx.prove(tag + ".traj%d.velocities-untouched" % m, same0, pc=p.pc)
+                        ctx.prove_eq(tag + ".traj%d.potential-unchanged" % m, mol.Etot.a[m], E0.a[m], pc=p.pc)
+                    else:
+                        ctx.prove_eq(tag + ".traj%d.potential=E-w_old+w_new" % m, mol.Etot.a[m], E0.a[m] - exc.a[m, old[m]] + exc.a[m, hops[m]], pc=p.pc)
+                ctx.prove(tag + ".force-recomputed-iff-accepted", E.const((sh._recomputed >= 1) == (accept and bool(hopping))))
     ctx.assume_note("precondition of the relabel clause: the map handed over by _detect_crossings is a permutation (all 6 permutations of 3 states are checked); that _detect_crossings always returns one (Hungarian assignment, scipy) is not decided")
     ctx.undecided_clause("Hungarian assignment in _detect_crossings (scipy) and the 3-cycle question")
 
